@@ -233,6 +233,9 @@ inductive RegOp
   | runIgnored
   | reverse
   | shuffle (rs : List Nat)
+  | undoLastAdd
+  | shellRunIgnored (i : Nat)      -- `shell->setRunIgnored()` called directly on shell `i`
+  | ran                            -- a `runAllTests` happened (its effect on the shells' flags)
 
 def Reg.apply (r : Reg) : RegOp → Reg
   | .addTest g n ig => r.addTest g n ig
@@ -241,23 +244,70 @@ def Reg.apply (r : Reg) : RegOp → Reg
   | .runIgnored => { r with runIgnored := true }
   | .reverse => r.reverseTests
   | .shuffle rs => r.shuffleTests rs
+  | .undoLastAdd => r.unDoLastAddTest
+  | .shellRunIgnored i => r.shellSetRunIgnored i
+  | .ran => r.afterRun
 
 theorem wf_apply {r : Reg} (h : r.WF) (op : RegOp) : (r.apply op).WF := by
   cases op with
   | addTest g n ig => exact (wf_addTest h g n ig).1
-  | groupFilter f => exact ⟨h.linked, h.perm, h.ids⟩
-  | nameFilter f => exact ⟨h.linked, h.perm, h.ids⟩
-  | runIgnored => exact ⟨h.linked, h.perm, h.ids⟩
+  | groupFilter f => exact ⟨h.linked, h.nodup, h.bound, h.ids⟩
+  | nameFilter f => exact ⟨h.linked, h.nodup, h.bound, h.ids⟩
+  | runIgnored => exact ⟨h.linked, h.nodup, h.bound, h.ids⟩
   | reverse => exact (wf_reverseTests h).1
   | shuffle rs => exact (wf_shuffleTests h rs).1
+  | undoLastAdd => exact (wf_unDoLastAddTest h).1
+  | shellRunIgnored i => exact (wf_shellSetRunIgnored h i).1
+  | ran => exact (wf_afterRun h).1
 
-/-- After any history of registrations, filter settings, reversals and shuffles (any random
-    streams) the list holds every registered shell exactly once and ends in NULL. -/
+/-- After any history of registrations, filter settings, reversals, shuffles (any random
+    streams), un-registrations, direct `setRunIgnored` calls and runs, the list is a proper
+    NULL-terminated list of distinct shells. -/
 theorem wf_history (ops : List RegOp) : (ops.foldl Reg.apply Reg.empty).WF := by
   suffices ∀ r : Reg, r.WF → (ops.foldl Reg.apply r).WF from this _ wf_empty
   induction ops with
   | nil => intro r h; exact h
   | cons op ops ih => intro r h; exact ih _ (wf_apply h op)
+
+theorem complete_history_from (ops : List RegOp) : ∀ r : Reg, r.WF → r.Complete →
+    (∀ op ∈ ops, op ≠ RegOp.undoLastAdd) → (ops.foldl Reg.apply r).Complete := by
+  induction ops with
+  | nil => intro r _ hc _; exact hc
+  | cons op ops ih =>
+    intro r h hc hno
+    apply ih _ (wf_apply h op) _ (fun o ho => hno o (by simp [ho]))
+    have hop := hno op (by simp)
+    cases op with
+    | addTest g n ig => exact complete_addTest h hc g n ig
+    | groupFilter f => exact hc
+    | nameFilter f => exact hc
+    | runIgnored => exact hc
+    | reverse =>
+      unfold Reg.Complete
+      simp only [Reg.apply]
+      rw [(wf_reverseTests h).2]
+      exact (List.reverse_perm _).trans hc
+    | shuffle rs =>
+      unfold Reg.Complete
+      exact ((wf_shuffleTests h rs).2).trans hc
+    | undoLastAdd => exact absurd rfl hop
+    | shellRunIgnored i =>
+      unfold Reg.Complete
+      simp only [Reg.apply]
+      rw [(wf_shellSetRunIgnored h i).2]
+      have hc' : r.order.Perm (List.range r.objs.size) := hc
+      simpa [Reg.shellSetRunIgnored] using hc'
+    | ran =>
+      unfold Reg.Complete
+      simp only [Reg.apply]
+      rw [(wf_afterRun h).2]
+      have hc' : r.order.Perm (List.range r.objs.size) := hc
+      simpa [Reg.afterRun, markRunIgnored] using hc'
+
+/-- Without `unDoLastAddTest` the list moreover holds EVERY shell ever registered. -/
+theorem complete_history (ops : List RegOp) (hno : ∀ op ∈ ops, op ≠ RegOp.undoLastAdd) :
+    (ops.foldl Reg.apply Reg.empty).Complete :=
+  complete_history_from ops _ wf_empty complete_empty hno
 
 theorem addTest_order {r : Reg} (h : r.WF) (g n : Bytes) (ig : Bool) :
     (r.addTest g n ig).order = r.objs.size :: r.order := (wf_addTest h g n ig).2
@@ -268,35 +318,31 @@ theorem reverseTests_order {r : Reg} (h : r.WF) : r.reverseTests.order = r.order
 theorem shuffleTests_perm {r : Reg} (h : r.WF) (rs : List Nat) :
     (r.shuffleTests rs).order.Perm r.order := (wf_shuffleTests h rs).2
 
-/-- the shells the run loop visits are the registered ones, each exactly once -/
-theorem tests_ids {r : Reg} (h : r.WF) : r.tests.map (·.id) = r.order := by
-  unfold Reg.tests
-  have hb : ∀ i ∈ r.order, i < r.objs.size := by
-    intro i hi
-    have := h.perm.subset hi
-    simpa using this
-  generalize r.order = l at hb
-  induction l with
-  | nil => rfl
-  | cons i l ih =>
-    have hi : i < r.objs.size := hb i (by simp)
-    have hget : r.objs[i]? = some r.objs[i] := by simp [hi]
-    simp only [List.filterMap_cons, hget, List.map_cons]
-    rw [h.ids i _ hget, ih (fun j hj => hb j (by simp [hj]))]
+/-- `unDoLastAddTest` removes exactly the first shell of the list (the shell registered last,
+    unless the list was reordered since) -/
+theorem unDoLastAddTest_order {r : Reg} (h : r.WF) : r.unDoLastAddTest.order = r.order.drop 1 :=
+  (wf_unDoLastAddTest h).2
 
-theorem tests_length {r : Reg} (h : r.WF) : r.tests.length = r.objs.size := by
-  have := congrArg List.length (tests_ids h)
-  simpa [h.order_length] using this
+/-- registering and un-registering gives the registry's list back -/
+theorem unDo_addTest {r : Reg} (h : r.WF) (g n : Bytes) (ig : Bool) :
+    (r.addTest g n ig).unDoLastAddTest.order = r.order := by
+  rw [unDoLastAddTest_order (wf_addTest h g n ig).1, addTest_order h]
+  rfl
 
 /-- In a repetition every registered test is run, or counted as ignored, or counted as filtered
     out: the three counters sum to the number of registered shells, whatever reversals and
     shuffles happened before. -/
 theorem run_counts_registered {r : Reg} (h : r.WF) :
-    r.run.1.runCount + r.run.1.ignoredCount + r.run.1.filteredOutCount = r.objs.size ∧
-    r.run.1.testCount = r.objs.size := by
+    r.run.1.runCount + r.run.1.ignoredCount + r.run.1.filteredOutCount = r.order.length ∧
+    r.run.1.testCount = r.order.length := by
   have := counts_partition r.cfg r.tests
   rw [tests_length h] at this
   exact this
+
+/-- ... which, as long as nothing was un-registered, is the number of shells ever registered -/
+theorem run_counts_all_registered {r : Reg} (h : r.WF) (hc : r.Complete) :
+    r.run.1.runCount + r.run.1.ignoredCount + r.run.1.filteredOutCount = r.objs.size := by
+  rw [(run_counts_registered h).1, complete_length hc]
 
 /-- Reversing only reverses the order in which the same tests start. -/
 theorem reverse_run {r : Reg} (h : r.WF) :
@@ -356,6 +402,256 @@ theorem shuffle_run {r : Reg} (h : r.WF) (rs : List Nat) :
     simp only [Counters.mk.injEq]
     omega
 
+/-! ## run-ignored per shell: `shouldRun` × `willRun` -/
+
+/-- Whether a selected test's body runs: it is a plain test, or the registry runs ignored
+    tests, or this very shell was told to (`shell->setRunIgnored()`); this is what
+    `IgnoredUtestShell::runOneTest` decides on (see `executed_iff`). -/
+theorem willRun_eq (cfg : Cfg) (t : Test) :
+    willRun cfg t = (!t.ignored || cfg.runIgnored || t.flag) := rfl
+
+/-- after a run the shell's own `willRun()` answers what the run did with it -/
+theorem shell_willRun_after_run (cfg : Cfg) (t : Test) :
+    (if cfg.runIgnored then t.setRunIgnored else t).willRun = willRun cfg t := by
+  obtain ⟨id, g, n, ig, fl, f, l⟩ := t
+  cases hri : cfg.runIgnored <;> cases ig <;> cases fl <;>
+    simp [Test.willRun, Test.setRunIgnored, willRun, hri]
+
+/-- a direct `setRunIgnored()` makes exactly an ignored shell willing; a plain shell always is -/
+theorem shell_willRun_after_set (t : Test) : t.setRunIgnored.willRun = true := by
+  obtain ⟨id, g, n, ig, fl, f, l⟩ := t
+  cases ig <;> simp [Test.willRun, Test.setRunIgnored]
+
+theorem shell_willRun_fresh (t : Test) (h : t.flag = false) : t.willRun = !t.ignored := by
+  obtain ⟨id, g, n, ig, fl, f, l⟩ := t
+  simp only at h
+  subst h
+  cases ig <;> simp [Test.willRun]
+
+/-- As long as nobody calls `setRunIgnored()` on a shell directly, a shell's flag implies the
+    registry's flag, so the decision is the registry's: `willRun = ¬ignored ∨ registry flag`. -/
+theorem flags_follow_registry (ops : List RegOp)
+    (hno : ∀ op ∈ ops, ∀ i, op ≠ RegOp.shellRunIgnored i) :
+    ∀ t ∈ (ops.foldl Reg.apply Reg.empty).objs.toList,
+      t.flag = true → (ops.foldl Reg.apply Reg.empty).runIgnored = true := by
+  suffices ∀ (ops : List RegOp) (r : Reg), (∀ op ∈ ops, ∀ i, op ≠ RegOp.shellRunIgnored i) →
+      (∀ t ∈ r.objs.toList, t.flag = true → r.runIgnored = true) →
+      ∀ t ∈ (ops.foldl Reg.apply r).objs.toList, t.flag = true → (ops.foldl Reg.apply r).runIgnored = true from
+    this ops _ hno (by simp [Reg.empty])
+  intro ops
+  induction ops with
+  | nil => intro r _ h; exact h
+  | cons op ops ih =>
+    intro r hno h
+    apply ih _ (fun o ho => hno o (by simp [ho]))
+    have hop := hno op (by simp)
+    cases op with
+    | addTest g n ig =>
+      intro t ht hf
+      simp only [Reg.apply, Reg.addTest, Array.toList_push, List.mem_append, List.mem_singleton] at ht
+      rcases ht with ht | rfl
+      · exact h t ht hf
+      · simp at hf
+    | groupFilter f => exact h
+    | nameFilter f => exact h
+    | runIgnored => intro t _ _; rfl
+    | reverse => exact h
+    | shuffle rs => exact h
+    | undoLastAdd => exact h
+    | shellRunIgnored i => exact absurd rfl (hop i)
+    | ran =>
+      intro t ht hf
+      simp only [Reg.apply, Reg.afterRun, markRunIgnored, Array.toList_map, List.mem_map] at ht
+      obtain ⟨u, hu, rfl⟩ := ht
+      show r.runIgnored = true
+      cases hri : r.runIgnored
+      · simp only [hri, Bool.false_and, Bool.false_eq_true, if_false] at hf
+        have := h u hu hf
+        rw [hri] at this; exact this
+      · rfl
+
+/-! ## queries on the list -/
+
+/-- `findTestWithName` / `findTestWithGroup`: the first shell in list order with that name / group -/
+theorem findTestWithName_first (name : Bytes) (ts : List Test) :
+    findTestWithName name ts = (ts.find? (fun t => t.name == name)).map (·.id) :=
+  findTestWithName_eq name ts
+
+theorem findTestWithGroup_first (group : Bytes) (ts : List Test) :
+    findTestWithGroup group ts = (ts.find? (fun t => t.group == group)).map (·.id) :=
+  findTestWithGroup_eq group ts
+
+/-- `countTests()` is the length of the list: for a well-formed registry the number of
+    registered shells -/
+theorem countTests_registered {r : Reg} (h : r.WF) : countTestsList r.tests = r.order.length := by
+  rw [countTestsList_eq, tests_length h]
+
+/-- `getTestWithNext(x)` is the predecessor of `x`; for the head, or for a shell that is not in
+    the list, NULL; for NULL, the last shell. -/
+theorem getTestWithNext_spec (ts : List Test) (hn : (ts.map (·.id)).Nodup) :
+    (∀ pre p x post, ts = pre ++ p :: x :: post → getTestWithNext (some x.id) ts = some p.id) ∧
+    (∀ x rest, ts = x :: rest → getTestWithNext (some x.id) ts = none) ∧
+    (∀ i, i ∉ ts.map (·.id) → getTestWithNext (some i) ts = none) ∧
+    getTestWithNext none ts = ts.getLast?.map (·.id) := by
+  refine ⟨?_, ?_, ?_, getTestWithNext_null ts⟩
+  · intro pre p x post e
+    subst e
+    exact getTestWithNext_pred p x post pre hn
+  · intro x rest e
+    subst e
+    apply getTestWithNext_not_in_tail
+    simp only [List.map_cons, List.nodup_cons] at hn
+    simpa using hn.1
+  · intro i hi
+    apply getTestWithNext_not_in_tail
+    intro hm
+    apply hi
+    have : (ts.drop 1).Sublist ts := List.drop_sublist _ _
+    exact (this.map _).subset hm
+
+/-! ## list modes: nothing runs, what is listed follows the filters -/
+
+/-- `-ln` looks at the filters exactly like a run does: the listed entries are those of the
+    selected tests (documented meaning, `selected_iff`), and the others are counted as filtered
+    out; no other counter moves and no test is started. -/
+theorem list_names_follows_filters (cfg : Cfg) (ts : List Test) :
+    (listTestGroupAndCaseNames cfg ts).1 =
+      listFinish (accLoop ((ts.filter (shouldRun cfg)).map groupDotName) []) ∧
+    (listTestGroupAndCaseNames cfg ts).2 =
+      { testCount := 0, runCount := 0, ignoredCount := 0,
+        filteredOutCount := (ts.filter (fun t => !shouldRun cfg t)).length } := by
+  have h := lnLoop_eq cfg ts [] {}
+  refine ⟨by simp only [listTestGroupAndCaseNames, h.1], ?_⟩
+  simp only [listTestGroupAndCaseNames, h.2]
+  simp
+
+/-- `-lg` does not look at the filters: all groups of the list -/
+theorem list_groups_all (ts : List Test) :
+    listTestGroupNames ts = listFinish (accLoop (ts.map groupEntry) []) := by
+  simp [listTestGroupNames, lgLoop_eq_accLoop]
+
+/-- What the accumulation of `-lg` / `-ln` holds before the `#` are removed: the entries of a
+    duplicate-free sublist (list order kept) of the given entries, and every given entry occurs
+    in it — nothing invented, nothing reordered, nothing listed twice, nothing missing. -/
+theorem list_accumulation (es : List Bytes) :
+    (∃ ds : List Bytes, ds.Sublist es ∧ accLoop es [] = encEntries ds ∧ ds.Nodup) ∧
+    ∀ e ∈ es, Text.isInfix (accLoop es []) e = true := by
+  obtain ⟨ds, h1, h2, h3, _⟩ := accLoop_structure es []
+  exact ⟨⟨ds, h1, by simpa using h2, h3⟩, (accLoop_complete es []).2⟩
+
+/-- NOT PROVED (checked on the implementation's output by the specification oracle of every
+    run instead): when no entry contains `#` and none is the single space, the accumulated
+    entries are exactly the first occurrences, i.e. the printed text is the distinct names joined
+    by single spaces.  The missing step is the delimiter argument "an occurrence of `#g#` in
+    `#d1# #d2# …` lies between two consecutive `#`". -/
+def list_accumulation_full : Prop :=
+  ∀ es : List Bytes, (∀ e ∈ es, ∃ g, e = [hash] ++ g ++ [hash] ∧ hash ∉ g ∧ g ≠ [space]) →
+    accLoop es [] = encEntries es.eraseDups
+
+/-- `-ll` lists every shell of the list, in list order, one line each (no filter is consulted) -/
+theorem list_locations_all (ts : List Test) :
+    listTestLocations ts =
+      (ts.map (fun t => t.group ++ [dot] ++ t.name ++ [dot] ++ t.file ++ [dot] ++ decimal t.line ++ [10])).flatten := by
+  induction ts with
+  | nil => rfl
+  | cons t rest ih => simp only [listTestLocations, List.map_cons, List.flatten_cons, ih]
+
+/-- in a list mode the runner starts no test: its output holds no run at all -/
+theorem list_modes_run_nothing (a : RunnerArgs) (r : Reg) (rs : List Nat) (h : a.listMode ≠ .none) :
+    runsOf (runnerRunAllTests a r rs).2.1 = [] ∧ (runnerRunAllTests a r rs).2.2 = 0 := by
+  unfold runnerRunAllTests
+  cases hm : a.listMode with
+  | none => exact absurd hm h
+  | groups => simp [runsOf]
+  | names => simp [runsOf]
+  | locations => simp [runsOf]
+
+/-! ## the repeat loop of `CommandLineTestRunner` -/
+
+/-- The registry the repetitions start from: filters and run-ignored of the command line,
+    reversed once with -b. -/
+def runnerStart (a : RunnerArgs) (r : Reg) : Reg :=
+  if a.reversing then (initializeTestRun a r).reverseTests else initializeTestRun a r
+
+theorem wf_initializeTestRun {a : RunnerArgs} {r : Reg} (h : r.WF) : (initializeTestRun a r).WF :=
+  ⟨h.linked, h.nodup, h.bound, h.ids⟩
+
+theorem wf_runnerStart {a : RunnerArgs} {r : Reg} (h : r.WF) : (runnerStart a r).WF := by
+  unfold runnerStart
+  split
+  · exact (wf_reverseTests (wf_initializeTestRun h)).1
+  · exact wf_initializeTestRun h
+
+def runnerBanner (a : RunnerArgs) : List ROut :=
+  match a.shuffleSeed with
+  | some seed => [ROut.text (ofAscii "Test order shuffling enabled with seed: " ++ decimal seed ++ [10])]
+  | none => []
+
+theorem runner_none_eq (a : RunnerArgs) (r : Reg) (rs : List Nat) (hm : a.listMode = .none) :
+    runnerRunAllTests a r rs =
+      ((repeatLoop a.shuffleSeed.isSome a.repeatCount a.repeatCount 1 (runnerStart a r) rs).reg,
+       runnerBanner a ++ (repeatLoop a.shuffleSeed.isSome a.repeatCount a.repeatCount 1 (runnerStart a r) rs).out,
+       (repeatLoop a.shuffleSeed.isSome a.repeatCount a.repeatCount 1 (runnerStart a r) rs).failed) := by
+  unfold runnerRunAllTests
+  rw [hm]
+  rfl
+
+theorem runsOf_banner (a : RunnerArgs) : runsOf (runnerBanner a) = [] := by
+  unfold runnerBanner; cases a.shuffleSeed <;> simp [runsOf]
+
+/-- **Every repetition runs every selected test exactly once.**  With `-r N` there are exactly
+    `N` runs; in each of them (whatever the shuffle seed and the random numbers, which are drawn
+    afresh — `srand(seed)` again — in every repetition and applied to the order the previous
+    repetition left) the started tests are the selected tests and the executed bodies are the
+    selected, willing ones, each exactly once; the counters are the same in every repetition;
+    notifications are balanced; afterwards the list still holds the same shells. -/
+theorem runner_every_repetition (a : RunnerArgs) (r : Reg) (rs : List Nat) (h : r.WF)
+    (hm : a.listMode = .none) :
+    (runsOf (runnerRunAllTests a r rs).2.1).length = a.repeatCount ∧
+    (∀ ce ∈ runsOf (runnerRunAllTests a r rs).2.1,
+        RunOf (runnerStart a r).keys ce ∧ (executed ce.2).Nodup ∧ (started ce.2).Nodup) ∧
+    (runnerRunAllTests a r rs).1.WF ∧
+    (runnerRunAllTests a r rs).1.order.Perm (runnerStart a r).order := by
+  have hw := wf_runnerStart (a := a) h
+  have key := repeatLoop_spec a.shuffleSeed.isSome a.repeatCount a.repeatCount 1 (runnerStart a r) rs hw
+  obtain ⟨k1, k2, k3, k4, _⟩ := key
+  rw [runner_none_eq a r rs hm]
+  simp only [runsOf_append, runsOf_banner, List.nil_append]
+  refine ⟨k3, ?_, k1, k2⟩
+  intro ce hce
+  have hr := k4 ce hce
+  have hidn : ((runnerStart a r).tests.map (·.id)).Nodup := by rw [tests_ids hw]; exact hw.nodup
+  have hsub : ∀ p : Key → Bool, (((runnerStart a r).keys.filter p).map (·.1)).Nodup := by
+    intro p
+    have : ((runnerStart a r).keys.map (·.1)) = (runnerStart a r).tests.map (·.id) := by
+      simp [Reg.keys, Test.key, Function.comp_def]
+    exact List.Nodup.sublist ((List.filter_sublist).map _) (this ▸ hidn)
+  exact ⟨hr, hr.2.1.nodup_iff.mpr (hsub _), hr.2.2.1.nodup_iff.mpr (hsub _)⟩
+
+/-- what `RunOf` says, spelled out for the executed bodies: a shell's body ran in the
+    repetition iff it is in the list, selected (documented meaning) and willing to run -/
+theorem runOf_executed_iff (r : Reg) (ce : Counters × List Ev) (hr : RunOf r.keys ce) (i : Nat) :
+    i ∈ executed ce.2 ↔ ∃ t ∈ r.tests, t.id = i ∧ Selected r.cfg t ∧ willRun r.cfg t = true := by
+  rw [hr.2.1.mem_iff]
+  simp only [execOfKeys, Reg.keys, List.mem_map, List.mem_filter, Test.key, Bool.and_eq_true,
+    Prod.exists, ← selected_iff]
+  constructor
+  · rintro ⟨a, b, c, ⟨⟨t, ht, e⟩, hb, hc⟩, rfl⟩
+    cases e
+    exact ⟨t, ht, rfl, hb, hc⟩
+  · rintro ⟨t, ht, rfl, hb, hc⟩
+    exact ⟨_, _, _, ⟨⟨t, ht, rfl⟩, hb, hc⟩, rfl⟩
+
+/-- the runner's return value when no check fails: the number of repetitions that ran nothing
+    (every repetition, or none) -/
+theorem runner_return (a : RunnerArgs) (r : Reg) (rs : List Nat) (h : r.WF) (hm : a.listMode = .none) :
+    (runnerRunAllTests a r rs).2.2 =
+      if ranNothing (countersOfKeys (runnerStart a r).keys) then a.repeatCount else 0 := by
+  have hw := wf_runnerStart (a := a) h
+  have key := repeatLoop_spec a.shuffleSeed.isSome a.repeatCount a.repeatCount 1 (runnerStart a r) rs hw
+  rw [runner_none_eq a r rs hm]
+  exact key.2.2.2.2
+
 /-! ## non-vacuity: concrete, non-trivial instances -/
 
 -- byte strings over the letters a (97), b (98), A (65)
@@ -382,10 +678,37 @@ example : (sampleReg.shuffleTests [6, 4, 3, 2]).order = [0, 2, 1, 4, 3] := by de
 example : groupStarts (sampleReg.shuffleTests [6, 4, 3, 2]).run.2 = [0, 2, 1, 4, 3] := by decide
 example : Balanced (sampleReg.shuffleTests [6, 4, 3, 2]).run.2 := groups_balanced _ _
 example : groupStarts sampleReg.run.2 = [4, 3, 2, 1] := by decide
-example : Selected sampleReg.cfg ⟨2, b [98], b [], false⟩ :=
+example : Selected sampleReg.cfg { id := 2, group := b [98], name := b [], ignored := false } :=
   (selected_iff _ _).mp (by decide)
-example : ¬ Selected sampleReg.cfg ⟨0, b [97, 98], b [97], false⟩ :=
+example : ¬ Selected sampleReg.cfg { id := 0, group := b [97, 98], name := b [97], ignored := false } :=
   fun h => absurd ((selected_iff _ _).mpr h) (by decide)
+-- queries, un-registration, per-shell run-ignored
+example : findTestWithName (b [97]) sampleReg.tests = some 3 := by decide       -- first in LIST order
+example : findTestWithGroup (b [65, 65]) sampleReg.tests = none := by decide
+example : countTestsList sampleReg.tests = 5 := by decide
+example : getTestWithNext (some 2) sampleReg.tests = some 3 ∧ getTestWithNext (some 4) sampleReg.tests = none ∧
+    getTestWithNext none sampleReg.tests = some 0 := by decide
+example : sampleReg.unDoLastAddTest.order = [3, 2, 1, 0] := by decide
+example : (sampleReg.apply .undoLastAdd).run.1.testCount = 4 := by decide
+example : sampleReg.objs.toList.map Test.willRun = [true, false, true, true, true] := by decide
+example : executed (sampleReg.shellSetRunIgnored 1).run.2 = [2, 1] := by decide  -- shell 1 told to run
+example : (sampleReg.apply .runIgnored).afterRun.objs.toList.map Test.willRun = [true, true, true, true, true] := by
+  decide
+-- list modes: -lg lists every group once, -ln only the selected tests, -ll every shell
+example : listTestGroupNames sampleReg.tests = b [65, 32, 97, 98, 32, 98] := by decide           -- "A ab b"
+example : (listTestGroupAndCaseNames sampleReg.cfg sampleReg.tests).1 = b [98, 46, 32, 97, 98, 46, 98, 97] := by
+  decide                                                                                         -- "b. ab.ba"
+example : (listTestGroupAndCaseNames sampleReg.cfg sampleReg.tests).2.filteredOutCount = 3 := by decide
+-- the runner: -r3 -s5 -b runs the two selected tests in each of three repetitions
+def sampleArgs : RunnerArgs :=
+  { groupFilters := sampleReg.groupFilters, nameFilters := sampleReg.nameFilters, runIgnored := false,
+    reversing := true, shuffleSeed := some 5, repeatCount := 3, listMode := .none }
+example : (runsOf (runnerRunAllTests sampleArgs sampleReg [1, 2, 0, 1, 3, 0, 2, 1, 0, 0, 1, 1]).2.1).map
+    (fun ce => (executed ce.2, ce.1.runCount, ce.1.ignoredCount, ce.1.filteredOutCount)) =
+    [([2], 1, 1, 3), ([2], 1, 1, 3), ([2], 1, 1, 3)] := by decide
+example : (runnerRunAllTests sampleArgs sampleReg [1, 2, 0, 1, 3, 0, 2, 1, 0, 0, 1, 1]).1.order = [3, 0, 4, 2, 1] := by
+  decide
+example : (runnerRunAllTests { sampleArgs with listMode := .names } sampleReg []).2.1.length = 1 := by decide
 -- the relink hypothesis is needed: with a duplicated shell the links form a cycle (the C++ loop
 -- over the list would never reach NULL)
 example : walk (relink #[0, 1, 0] (fun _ => none)) 7 (firstOf #[0, 1, 0]) = [0, 1, 0, 1, 0, 1, 0] := by
